@@ -21,3 +21,19 @@ example : IsSkew (fun i j => if i = 0 ∧ j = 1 then (1:ℝ) else if i = 1 ∧ j
   intro i j; fin_cases i <;> fin_cases j <;> simp
 
 end ModelR
+
+namespace ModelR
+
+/-- the hypotheses of `history_valid` are satisfiable: a one-grain mineral with a valid initial snapshot -/
+example : GoodSnap 1 ⟨[one3], [1]⟩ := by
+  refine ⟨rfl, rfl, by simp, by simp, ?_⟩
+  intro a ha i j
+  simp only [List.mem_singleton] at ha
+  subst ha
+  fin_cases i <;> fin_cases j <;> simp [one3]
+
+/-- a failed update satisfies `SolverOutputOk` trivially; so does any solver output of the right shape -/
+example : SolverOutputOk 1 none := by
+  intro l raw h; cases h
+
+end ModelR
